@@ -12,6 +12,7 @@ import (
 	"math/rand"
 	"net/http"
 	"reflect"
+	"sort"
 	"strings"
 
 	"github.com/go-openapi/runtime"
@@ -28,6 +29,8 @@ import (
 //   apikey    APIKeyAuth(name,in,v)     -> APIKeyAuth / APIKeyAuthCtx
 //   bearer    Authorization value + access_token in query / form body -> BearerAuth / BearerAuthCtx
 //   default   DefaultAuthentication vs operation AuthInfo vs a pre-set Authorization header
+//   defaultx  DefaultAuthentication (any writer) vs operation AuthInfo (any writer: basic, bearer, key in header / query,
+//             pass-through, compositions, nil) vs pre-set header and query parameters; every credential on the wire is observed
 
 type c14In struct {
 	Kind    string `json:"kind"`
@@ -48,6 +51,32 @@ type c14In struct {
 	Op      bool   `json:"op,omitempty"`
 	Def     bool   `json:"def,omitempty"`
 	Preset  Bs     `json:"preset,omitempty"`
+	// kind "defaultx": the default credential crossed with every kind of writer
+	OpW  *c14W   `json:"opw,omitempty"`  // the operation's own writer (nil: none)
+	DefW *c14W   `json:"defw,omitempty"` // Runtime.DefaultAuthentication (nil: not configured)
+	PreH []c14KV `json:"preh,omitempty"` // header parameters set by the operation's parameters
+	PreQ []c14KV `json:"preq,omitempty"` // query parameters set by the operation's parameters
+}
+
+// c14W describes a credential writer of client/auth_info.go.
+//   basic A=user B=password | bearer A=token | keyh / keyq A=name B=value (APIKeyAuth in header / query) |
+//   badloc A=name B=value (APIKeyAuth with an unsupported location: a nil writer) | pass (PassThroughAuth) |
+//   nil (a nil entry, only meaningful inside a composition) | compose Ws
+type c14W struct {
+	K  string `json:"k"`
+	A  Bs     `json:"a,omitempty"`
+	B  Bs     `json:"b,omitempty"`
+	Ws []c14W `json:"ws,omitempty"`
+}
+
+type c14KV struct {
+	K Bs `json:"k"`
+	V Bs `json:"v"`
+}
+
+type c14KVs struct {
+	K  Bs   `json:"k"`
+	Vs []Bs `json:"vs"`
 }
 
 type c14Obs struct {
@@ -63,6 +92,9 @@ type c14Obs struct {
 	ScopesOK bool   `json:"scopes_ok"`
 	MarkerOK bool   `json:"marker_ok"`
 	Seen     Bs     `json:"seen,omitempty"`
+	// defaultx: every header that is not the transport's own (lower-cased name) and every query parameter, as received
+	Hdrs []c14KVs `json:"hdrs,omitempty"`
+	Qry  []c14KVs `json:"qry,omitempty"`
 }
 
 type c14 struct{}
@@ -75,7 +107,10 @@ func (c14) Rule() string {
 	return "basic: users without and (a share) with a colon, passwords of arbitrary bytes incl. colon/non-ASCII/empty, realms incl. empty, failing callback, plain and Ctx variants; " +
 		"basicraw: foreign schemes, case variants of the prefix, damaged base64, missing colon; apikey: header and query, names in several cases, values header-safe / arbitrary (query) / empty; " +
 		"bearer: every subset of {Authorization header, query, urlencoded form, multipart form, form under a JSON content type} with foreign schemes and lower-case prefix in the header, scopes lists; " +
-		"default: all 8 combinations of operation writer / default writer / pre-set header. Non-trivial: every case in which a credential is transmitted."
+		"default: all 8 combinations of operation writer / default writer / pre-set header; defaultx: the default credential crossed with every kind of operation writer " +
+		"(none, nil from an unsupported key location, basic, bearer, key in header, key named Authorization, key in query, pass-through, compositions with and without an Authorization writer, nested, empty, with nil entries) " +
+		"and of default writer, with Authorization / key header / query parameters pre-set by the parameters; observed: every non-transport header and every query parameter received. " +
+		"Non-trivial: every case in which a credential is transmitted or configured."
 }
 
 func (c14) Decode(raw json.RawMessage) (any, error) {
@@ -90,6 +125,52 @@ func (c14) Enumerate(tier string) []any {
 		for _, def := range []bool{false, true} {
 			for _, pre := range []Bs{"", "Bearer PRE", "Basic eDp5", " "} {
 				out = append(out, c14In{Kind: "default", Op: op, Def: def, Preset: pre})
+			}
+		}
+	}
+	// the default credential crossed with every kind of operation writer and of default writer, and with what the
+	// parameters have set before the credentials are written
+	kh := func(n, v string) c14W { return c14W{K: "keyh", A: Bs(n), B: Bs(v)} }
+	kq := func(n, v string) c14W { return c14W{K: "keyq", A: Bs(n), B: Bs(v)} }
+	comp := func(ws ...c14W) c14W { return c14W{K: "compose", Ws: ws} }
+	pw := func(w c14W) *c14W { return &w }
+	ops := []*c14W{nil,
+		pw(c14W{K: "badloc", A: "X-API-Key", B: "k"}),
+		pw(c14W{K: "basic", A: "u", B: "p"}),
+		pw(c14W{K: "bearer", A: "OP"}),
+		pw(kh("X-API-Key", "opkey")),
+		pw(kh("Authorization", "Token raw")),
+		pw(kq("api_key", "opq")),
+		pw(c14W{K: "pass"}),
+		pw(comp()),
+		pw(comp(c14W{K: "nil"})),
+		pw(comp(c14W{K: "pass"})),
+		pw(comp(kh("X-API-Key", "opkey"), kq("api_key", "opq"))),
+		pw(comp(c14W{K: "bearer", A: "OP"}, kq("api_key", "opq"))),
+		pw(comp(c14W{K: "nil"}, kh("X-Token", "t"))),
+		pw(comp(comp(kq("api_key", "opq")), c14W{K: "pass"})),
+		pw(comp(kh("X-API-Key", "first"), kh("x-api-key", "second"))),
+	}
+	defs := []*c14W{nil,
+		pw(c14W{K: "bearer", A: "DEF"}),
+		pw(c14W{K: "basic", A: "du", B: "dp"}),
+		pw(kh("X-Default-Key", "dk")),
+		pw(kq("default_key", "dq")),
+		pw(kh("X-API-Key", "defkey")),
+		pw(c14W{K: "pass"}),
+		pw(comp(c14W{K: "bearer", A: "DEF"}, kq("default_key", "dq"))),
+	}
+	type c14Pre struct{ h, q []c14KV }
+	pres := []c14Pre{{},
+		{h: []c14KV{{"Authorization", "Bearer PRE"}}},
+		{h: []c14KV{{"Authorization", " "}}},
+		{h: []c14KV{{"X-API-Key", "prekey"}}},
+		{q: []c14KV{{"api_key", "preq"}, {"other", "1"}}},
+	}
+	for _, op := range ops {
+		for _, def := range defs {
+			for _, pre := range pres {
+				out = append(out, c14In{Kind: "defaultx", OpW: op, DefW: def, PreH: pre.h, PreQ: pre.q})
 			}
 		}
 	}
@@ -147,7 +228,50 @@ var c14Realms = []string{"", "API", "my realm", "r\xc3\xa9"}
 var c14RawAuth = []string{"", "Basic", "Basic ", "Basic eDp5", "basic eDp5", "BASIC eDp5", "Basic  eDp5", "Basic eDp5 ", "Basic eA==", "Basic eDp5eg", "Basic eDp5eg=", "Basic eDp5e===", "Basic !!!!",
 	"Bearer eDp5", "Digest x", "Basic eDo=", "Basic Og==", "Basic eDp5\teg==", "Basic eDp5OnoK", "BasiceDp5", "Basic ZTp5=", "Basic eDp5====", "Basic =", "Basic e", "Basic eD", "Basic eDp", "Basic eD==", "Basic eR=="}
 var c14Names = []string{"X-API-Key", "x-api-key", "Authorization", "api_key", "X-Token", "key", "access_token", "k.e-y"}
+var c14QNames = []string{"api_key", "API_KEY", "default_key", "access_token", "key", "X-API-Key", "k.e-y", "other"}
 var c14Hdrs = []string{"", "Bearer tok", "bearer tok", "BEARER tok", "Bearer ", "Bearer", "Bearer  two", "Basic eDp5", "Bearer a b", "Token t", "Bearer tok ", " Bearer tok", "BearerX", "Bearer \xc3\xa9"}
+
+// c14GenWriter: a random credential writer; compositions nest at most two levels.
+func c14GenWriter(r *rand.Rand, depth int) c14W {
+	k := r.Intn(12)
+	if depth >= 2 && k >= 9 {
+		k = r.Intn(9)
+	}
+	switch {
+	case k == 0:
+		return c14W{K: "basic", A: Bs(c14Users[r.Intn(len(c14Users))]), B: Bs(c14Pass[r.Intn(len(c14Pass))])}
+	case k == 1:
+		return c14W{K: "bearer", A: Bs(c14HeaderSafe(r, 1+r.Intn(8)))}
+	case k < 5:
+		v := c14HeaderSafe(r, 1+r.Intn(8))
+		if r.Intn(10) == 0 {
+			v = ""
+		}
+		return c14W{K: "keyh", A: Bs(c14Names[r.Intn(len(c14Names))]), B: Bs(v)}
+	case k < 7:
+		v := c14HeaderSafe(r, 1+r.Intn(8))
+		switch r.Intn(6) {
+		case 0:
+			v = c14Bytes(r, 1+r.Intn(6))
+		case 1:
+			v = ""
+		}
+		return c14W{K: "keyq", A: Bs(c14QNames[r.Intn(len(c14QNames))]), B: Bs(v)}
+	case k == 7:
+		return c14W{K: "pass"}
+	case k == 8:
+		if depth > 0 && r.Intn(2) == 0 {
+			return c14W{K: "nil"}
+		}
+		return c14W{K: "badloc", A: "X-API-Key", B: "k"}
+	default:
+		w := c14W{K: "compose"}
+		for n := r.Intn(4); n > 0; n-- {
+			w.Ws = append(w.Ws, c14GenWriter(r, depth+1))
+		}
+		return w
+	}
+}
 
 func (c14) Gen(r *rand.Rand, tier string, i int) any {
 	switch k := r.Intn(10); {
@@ -182,6 +306,25 @@ func (c14) Gen(r *rand.Rand, tier string, i int) any {
 			in.V = Bs(c14Bytes(r, 1+r.Intn(10)))
 		default:
 			in.V = Bs(c14HeaderSafe(r, 1+r.Intn(12)))
+		}
+		return in
+	case k == 9:
+		in := c14In{Kind: "defaultx"}
+		if r.Intn(5) != 0 {
+			w := c14GenWriter(r, 0)
+			in.OpW = &w
+		}
+		if r.Intn(6) != 0 {
+			w := c14GenWriter(r, 0)
+			in.DefW = &w
+		}
+		for n := r.Intn(3); n > 0; n-- {
+			name := []string{"Authorization", "authorization", "X-API-Key", "X-Token", "X-Other"}[r.Intn(5)]
+			in.PreH = append(in.PreH, c14KV{Bs(name), Bs(c14Hdrs[r.Intn(len(c14Hdrs))])})
+		}
+		for n := r.Intn(3) - 1; n > 0; n-- {
+			name := []string{"api_key", "access_token", "other", "key"}[r.Intn(4)]
+			in.PreQ = append(in.PreQ, c14KV{Bs(name), Bs([]string{"q1", "a b", "a&b=c", "", "x+y"}[r.Intn(5)])})
 		}
 		return in
 	default:
@@ -235,6 +378,108 @@ func c14Wire(in c14In, auth runtime.ClientAuthInfoWriter, def runtime.ClientAuth
 		return nil, err
 	}
 	return http.ReadRequest(bufio.NewReader(&buf))
+}
+
+// headers the transport writes by itself (never a credential of the cases: the key names of the generator avoid them)
+var c14TransportHeaders = map[string]bool{"accept": true, "content-type": true, "content-length": true, "user-agent": true,
+	"transfer-encoding": true, "accept-encoding": true, "connection": true}
+
+// c14Build makes the real writer described by w (nil for the descriptions that stand for a nil writer).
+func c14Build(w c14W) runtime.ClientAuthInfoWriter {
+	switch w.K {
+	case "basic":
+		return client.BasicAuth(string(w.A), string(w.B))
+	case "bearer":
+		return client.BearerToken(string(w.A))
+	case "keyh":
+		return client.APIKeyAuth(string(w.A), "header", string(w.B))
+	case "keyq":
+		return client.APIKeyAuth(string(w.A), "query", string(w.B))
+	case "badloc":
+		return client.APIKeyAuth(string(w.A), "cookie", string(w.B))
+	case "pass":
+		return client.PassThroughAuth
+	case "nil":
+		return nil
+	case "compose":
+		ws := make([]runtime.ClientAuthInfoWriter, len(w.Ws))
+		for i, x := range w.Ws {
+			ws[i] = c14Build(x)
+		}
+		return client.Compose(ws...)
+	}
+	panic("c14: unknown writer kind " + w.K)
+}
+
+// c14IsNilWriter: the description stands for no writer at all.
+func c14IsNilWriter(w *c14W) bool { return w == nil || w.K == "nil" || w.K == "badloc" }
+
+// c14CoqWriter prints the writer as a term of Credentials.writer; a nil entry of a composition is skipped by Compose (WPass).
+func c14CoqWriter(w c14W) string {
+	switch w.K {
+	case "basic":
+		return fmt.Sprintf("(WBasic %s %s)", coqBytes(string(w.A)), coqBytes(string(w.B)))
+	case "bearer":
+		return fmt.Sprintf("(WBearer %s)", coqBytes(string(w.A)))
+	case "keyh":
+		return fmt.Sprintf("(WKey %s InHeader %s)", coqBytes(string(w.A)), coqBytes(string(w.B)))
+	case "keyq":
+		return fmt.Sprintf("(WKey %s InQuery %s)", coqBytes(string(w.A)), coqBytes(string(w.B)))
+	case "pass", "nil", "badloc":
+		return "WPass"
+	case "compose":
+		return "(WCompose " + coqList(w.Ws, c14CoqWriter) + ")"
+	}
+	panic("c14: unknown writer kind " + w.K)
+}
+
+func c14CoqOptWriter(w *c14W) string {
+	if c14IsNilWriter(w) {
+		return "None"
+	}
+	return "(Some " + c14CoqWriter(*w) + ")"
+}
+
+func c14CoqKV(kv c14KV) string { return coqPair(coqBytes(string(kv.K)), coqBytes(string(kv.V))) }
+func c14CoqKVs(kv c14KVs) string {
+	return coqPair(coqBytes(string(kv.K)), coqBytesList(bsList(kv.Vs)))
+}
+
+// c14WriterLabel: the kind of a writer for the distribution report.
+func c14WriterLabel(w *c14W) string {
+	if w == nil {
+		return "none"
+	}
+	if w.K != "compose" {
+		if w.K == "keyh" && c14WritesAuthz(*w) {
+			return "keyh-authorization"
+		}
+		return w.K
+	}
+	switch {
+	case len(w.Ws) == 0:
+		return "compose-empty"
+	case c14WritesAuthz(*w):
+		return "compose-with-authorization-writer"
+	}
+	return "compose-without-authorization-writer"
+}
+
+// c14WritesAuthz: some member of the writer sets the Authorization header.
+func c14WritesAuthz(w c14W) bool {
+	switch w.K {
+	case "basic", "bearer":
+		return true
+	case "keyh":
+		return strings.EqualFold(string(w.A), "Authorization")
+	case "compose":
+		for _, x := range w.Ws {
+			if c14WritesAuthz(x) {
+				return true
+			}
+		}
+	}
+	return false
 }
 
 func (c14) Run(inAny any) any {
@@ -396,6 +641,44 @@ func (c14) Run(inAny any) any {
 				return
 			}
 			obs.Seen = Bs(sreq.Header.Get("Authorization"))
+		case "defaultx":
+			var opAuth, def runtime.ClientAuthInfoWriter
+			if in.OpW != nil {
+				opAuth = c14Build(*in.OpW)
+			}
+			if in.DefW != nil {
+				def = c14Build(*in.DefW)
+			}
+			params := func(req runtime.ClientRequest) error {
+				for _, kv := range in.PreH {
+					if err := req.SetHeaderParam(string(kv.K), string(kv.V)); err != nil {
+						return err
+					}
+				}
+				for _, kv := range in.PreQ {
+					if err := req.SetQueryParam(string(kv.K), string(kv.V)); err != nil {
+						return err
+					}
+				}
+				return nil
+			}
+			sreq, err := c14Wire(in, opAuth, def, params, runtime.JSONMime)
+			if err != nil {
+				obs.Fail = err.Error()
+				return
+			}
+			for k, vs := range sreq.Header {
+				lk := strings.ToLower(k)
+				if c14TransportHeaders[lk] {
+					continue
+				}
+				obs.Hdrs = append(obs.Hdrs, c14KVs{K: Bs(lk), Vs: toBs(vs)})
+			}
+			for k, vs := range sreq.URL.Query() {
+				obs.Qry = append(obs.Qry, c14KVs{K: Bs(k), Vs: toBs(vs)})
+			}
+			sort.Slice(obs.Hdrs, func(i, j int) bool { return obs.Hdrs[i].K < obs.Hdrs[j].K })
+			sort.Slice(obs.Qry, func(i, j int) bool { return obs.Qry[i].K < obs.Qry[j].K })
 		}
 	})
 	if panicked {
@@ -427,6 +710,9 @@ func (c14) Coq(inAny any, obsAny any) string {
 			coqBool(obs.ScopesOK), coqBool(obs.MarkerOK), coqBool(pok))
 	case "default":
 		return fmt.Sprintf("CDefault %s %s %s %s", coqBool(in.Op), coqBool(in.Def), coqBytes(string(in.Preset)), coqBytes(string(obs.Seen)))
+	case "defaultx":
+		return fmt.Sprintf("CDefaultX %s %s %s %s %s %s", c14CoqOptWriter(in.OpW), c14CoqOptWriter(in.DefW),
+			coqList(in.PreH, c14CoqKV), coqList(in.PreQ, c14CoqKV), coqList(obs.Hdrs, c14CoqKVs), coqList(obs.Qry, c14CoqKVs))
 	}
 	panic("c14: unknown kind " + in.Kind)
 }
@@ -482,6 +768,27 @@ func (c14) Category(inAny any, obsAny any) (string, bool) {
 		return fmt.Sprintf("bearer/%s/%s/%s", v, strings.Join(pl, "+"), app), len(pl) > 0
 	case "default":
 		return fmt.Sprintf("default/op=%v,def=%v,preset=%v", in.Op, in.Def, in.Preset != ""), in.Op || in.Def || in.Preset != ""
+	case "defaultx":
+		pre := "none"
+		for _, kv := range in.PreH {
+			if strings.EqualFold(string(kv.K), "Authorization") {
+				pre = "authorization"
+			} else if pre == "none" {
+				pre = "other"
+			}
+		}
+		if pre == "none" && len(in.PreQ) > 0 {
+			pre = "other"
+		}
+		def := "none"
+		if in.DefW != nil {
+			def = "without-authorization-writer"
+			if c14WritesAuthz(*in.DefW) {
+				def = "with-authorization-writer"
+			}
+		}
+		return fmt.Sprintf("defaultx/op=%s/def=%s/preset=%s", c14WriterLabel(in.OpW), def, pre),
+			in.OpW != nil || in.DefW != nil || len(in.PreH) > 0 || len(in.PreQ) > 0
 	}
 	return in.Kind, false
 }
